@@ -35,7 +35,7 @@ IM_CLASSES = COND_CLASSES + [["weak"], ["stale", "weak"], ["weak", "other"]]
 PROP_VALUES = ["Plain", "Work calendar", "50% done", "a=b:c", "[x] # y", "Zoë ☃", "Grüße aus dem Café", "ÿÆ",
                "quote\"s'", "x"]
 COLORS = ["#FF0000", "#00ff00aa", "#123456", "#ABCDEF12"]
-NASTY_VALUES = ["%", "%%", "100%", "%(displayname)s", "%s", "[section]", "[", "#hash", "a = b",
+NASTY_VALUES = ["100%25 cotton", "a%3Bb", "caf%C3%A9 menu", "rate=7%41", "%", "%%", "100%", "%(displayname)s", "%s", "[section]", "[", "#hash", "a = b",
                 "key: value", "\"quoted\"", "it's", "back\\slash", "ü", "日本語 カレンダー", "a#b", "x=y=z",
                 "tab\tinside", "two  spaces", "=", ":", "!bang", "${var}", "~", "a,b", "<tag>&amp;",
                 # several lines / paragraphs (descriptions are free text)
@@ -68,7 +68,7 @@ DEFAULT_PROFILE = {
 
 PROFILES = {
     "C01": {},
-    "C02": {"put": 40, "reupload": 8, "proppatch": 8, "restart": 5, "grammar": 0.4, "external": 0.08, "multiget": 12, "get": 14, "cond": 0.5},
+    "C02": {"rawics": 0.06, "put": 40, "reupload": 8, "proppatch": 8, "restart": 5, "grammar": 0.4, "external": 0.08, "multiget": 12, "get": 14, "cond": 0.5},
     "C03": {"cond": 0.85, "get": 12, "put": 40, "delete": 16},
     "C06": {"put": 45, "delete": 14, "restart": 6, "post": 8, "uidheavy": True, "uidquery": 8, "untyped": 0.4,
             "retype": 0.25, "proppatch": 8},
@@ -79,7 +79,7 @@ PROFILES = {
     "C14": {"invalid": 0.3, "reupload": 16, "put": 40, "grammar": 0.65, "ctparams": 0.6, "otherfiles": 0.15, "expandquery": 8},
     "C15": {"proppatch": 45, "restart": 8, "mk": 6, "delcoll": 3, "put": 12, "propheavy": True, "propsingle": 0.4, "lock": 5},
     "C16": {"mk": 8, "delcoll": 5, "post": 10},
-    "C17": {"multiget": 22, "delete": 12, "external": 0.15, "otherfiles": 0.15},
+    "C17": {"rawics": 0.05, "multiget": 22, "delete": 12, "external": 0.15, "otherfiles": 0.15},
 }
 
 
@@ -261,6 +261,18 @@ def run_random_session(seed, prof, frontend="wsgi", prefix="/", backend="tree", 
             op = weighted(rng, ops)
             c = rng.choice(slots) if rng.random() < 0.25 else rng.choice(slots[:1] + slots[-1:])
             live = s.events[-1]["audit"]["colls"].get(c, {}).get("members", {}) if s.events else {}
+            if op == "put" and c != "ab1" and rng.random() < prof.get("rawics", 0):
+                # a calendar object that arrives labelled as a generic file (a backup script, curl
+                # without -H): a new member under a calendar name, kept verbatim by the server.
+                # The body is valid, not in the server's normal form, and its UID is used nowhere else.
+                n = "raw%d.ics" % rng.randint(0, 2)
+                if n not in live:
+                    data = gamma.ics_event("raw-uid-%s-%s" % (c, n), "Raw upload " + n, variant=rng.choice([1, 2]),
+                                           extra=("LOCATION:somewhere", "DESCRIPTION:" + "long text " * 12))
+                    s.put(c, n, data, ct=rng.choice(["application/octet-stream", "application/x-unknown"]),
+                          valid=True, byname=True)
+                    s.multiget(c, [("live", n)])
+                continue
             if op == "put":
                 usevcf = (c == "ab1") != (rng.random() < 0.12)
                 names = VCF_NAMES if usevcf else ICS_NAMES
@@ -436,8 +448,10 @@ def run_random_session(seed, prof, frontend="wsgi", prefix="/", backend="tree", 
                     items.append((cls, n))
                 s.multiget(c, items)
             elif op == "reupload":
-                if live:
-                    n = rng.choice(sorted(live))
+                # (members uploaded as generic files under a calendar name are stored verbatim, not
+                # in normal form: the re-upload clause does not speak about them)
+                if [m for m in live if not m.startswith("raw")]:
+                    n = rng.choice(sorted(m for m in live if not m.startswith("raw")))
                     g = s.world.request("GET", s.slots[c] + "/" + n)
                     if g.status == 200:
                         s.put(c, n, g.body, re=True)
